@@ -9,7 +9,7 @@ PROPS = {
     "254b065": ["C01"], "dbd0af7": ["C01"], "4035eb8": ["C15"], "0e51737": ["C10"], "70d078f": ["C10"], "6d66402": ["C09", "C15"],
     "3a792a7": ["C09"], "ec93fb4": ["C07"], "b8586d8": ["C07"], "367d180": ["C07"], "9657306": ["C10"], "f2a6bbb": ["C10"],
     "276f442": ["C12"], "6bbcd68": ["C20", "C09"], "96c1a46": ["C20"], "21a0c15": ["C20", "C04"], "ed77ba0": ["C20"], "b228c71": ["C10", "C09"],
-    "e79ba45": ["C04"], "1cb5cb1": ["C02", "C13"], "317a110": ["C03"], "633350e": ["C09"], "7e225a3": ["C10"], "f204e85": ["C10", "C04"], "58bf22e": ["C09"], "b0cdc00": ["C03", "C20"],
+    "e79ba45": ["C04"], "1cb5cb1": ["C02", "C13"], "317a110": ["C03"], "633350e": ["C09"], "7e225a3": ["C10"], "f204e85": ["C10", "C04"], "58bf22e": ["C09"], "b0cdc00": ["C03", "C20"], "c7c4136": ["C08"], "e806eb2": ["C09"], "844d031": ["C09"],
 }
 def sh(c): return subprocess.run(c, shell=True, capture_output=True, text=True)
 only = sys.argv[1:]
